@@ -81,6 +81,7 @@ def run(ck):
     ck.rule("C09.R8", "dispatcher registration is announced exactly once: who may call on_register_dispatch (std and no_std)", floor=2)
     ck.rule("C09.R7", "a None layer is transparent for the max-level hint, also after it was swapped in by a reload (as C08.R7)", floor=1)
     ck.rule("C09.R6", "reload::Subscriber takes its lock with a blocking read on every call and forwards under it (as C12.R3)", floor=20)
+    ck.rule("C09.R13", "a veto reaches every layer of a Vec: the Vec's published interest never promises more than its `enabled` (= all elements) will allow (as C08.R6)", floor=3)
     ck.rule("C09.R5", "Layered::pick_interest asks the inner value on every path except the outer `never` veto", floor=1)
 
     wrapper_rules(ck, F)
@@ -88,6 +89,8 @@ def run(ck):
     check_dispatch_event(ck, F)
     check_pick_interest(ck, F)
     layered_drop_span(ck, F)
+    from rules import C08 as _C08
+    _C08.r6(ck, F, rid="C09.R13")
     role_agreement(ck, F)
     # reload::Subscriber forwards only after taking its lock: a non-blocking try_read that gives up while a reload is in
     # progress silently drops the notification for the wrapped layer (C12.R3's per-call blocking lock rule, instantiated)
